@@ -20,7 +20,10 @@ Inductive case :=
 (* a pool of points of one group of order q with advertised length n: for each
    the computation path, the MarshalBinary bytes and the class of the point
    under the implementation's Equal *)
-| CPoints (id : Z) (q : Z) (n : Z) (entries : list (pexp * list Z * Z)).
+| CPoints (id : Z) (q : Z) (n : Z) (entries : list (pexp * list Z * Z))
+(* a point whose affine coordinates the harness computed itself (coordinates
+   with leading zero bytes): MarshalBinary must be the fixed-width layout *)
+| CCoord (id : Z) (bk : Z) (w : Z) (prefix : list Z) (cs : list Z) (bytes : list Z).
 
 Definition ok_and_reenc (q : Z) (i : impl) (bo : border) (r : dres) (ok : bool) (reenc : list Z) : bool :=
   match r with
@@ -66,6 +69,8 @@ Definition check (c : case) : option Z :=
       let l := map (fun e => let '(p, b, c) := e in (peval q p, b, c)) entries in
       if forallb (fun e => let '(_, b, _) := e in Z.of_nat (length b) =? n) l && pairs_ok q l
       then None else Some id
+  | CCoord id bk w prefix cs bytes =>
+      if list_eqb (coord_enc (bo_of bk) (Z.to_nat w) prefix cs) bytes then None else Some id
   end.
 
 Definition mismatches (cs : list case) : list Z :=
